@@ -554,6 +554,462 @@ func sameLeafSets(evs []any, tostreamOut string) bool {
 }
 
 // ---------------------------------------------------------------------------------------------
+// inputs: files, stdin, modes
+
+type source struct {
+	arg     string // command-line operand ("" for stdin without operand)
+	text    string
+	missing bool
+}
+
+func dataSexp(text string, raw bool) string {
+	if raw {
+		return fmt.Sprintf("(d %s ok () eof ())", Hexs([]byte(text)))
+	}
+	vals, ok := decodeAll(text)
+	toks, end, _ := tokenize(text)
+	b := "ok"
+	if !ok {
+		b = "bad"
+	}
+	return fmt.Sprintf("(d - %s %s %s (%s))", b, sexpList(vals), end, strings.Join(toks, " "))
+}
+
+// the printed sequence: stdout values and stderr error lines in the order they were written
+func printedSeq(res result) (string, int, bool) {
+	var items []string
+	nerr := 0
+	for _, c := range res.chunks {
+		if c.errStream {
+			for _, l := range strings.SplitAfter(string(c.data), "\n") {
+				if strings.HasPrefix(l, "gojq: ") {
+					items = append(items, "e")
+					nerr++
+				}
+			}
+		} else {
+			vals, ok := decodeAll(string(c.data))
+			if !ok {
+				return "", 0, false
+			}
+			for _, v := range vals {
+				items = append(items, "(v "+SexpVal(v)+")")
+			}
+		}
+	}
+	return "(" + strings.Join(items, " ") + ")", nerr, true
+}
+
+var garbage = []string{`{"a":`, `]`, `tru`, `[1,`, `{"a" 1}`, `"abc`, `[1 2]`, `}`, `nul`, `[,]`}
+var rawPool = []string{"", "a", "b c", "\n", "\r", "\r\n", "x\ty", "é", "\"q\"", "\\", "\n\n", "line", " ", "日本"}
+
+func genRaw(r *Rng) string {
+	var b strings.Builder
+	for n := r.Intn(8); n > 0; n-- {
+		b.WriteString(rawPool[r.Intn(len(rawPool))])
+		if r.Chance(1, 2) {
+			b.WriteString("\n")
+		}
+	}
+	return b.String()
+}
+
+func genJSONText(r *Rng, allowBad bool) string {
+	nd := r.Intn(4)
+	text := ""
+	if nd > 0 {
+		text, _ = genStream(r, nd, 1+r.Intn(2))
+	} else if r.Chance(1, 2) {
+		text = " \n"
+	}
+	if allowBad && r.Chance(1, 6) {
+		text += " " + garbage[r.Intn(len(garbage))]
+		if r.Chance(1, 2) {
+			t2, _ := genStream(r, 1, 1)
+			text += " " + t2
+		}
+	}
+	return text
+}
+
+type modeSpec struct {
+	flags      []string
+	r, t, s, n int
+	query      string // transport name
+	jq         string
+}
+
+func inputsChecks(c *Ctx, dir string, round int) {
+	r := c.Rng
+	modes := []modeSpec{
+		{nil, 0, 0, 0, 0, "id", "."},
+		{[]string{"-n"}, 0, 0, 0, 1, "inputs", "[inputs]"},
+		{[]string{"-n"}, 0, 0, 0, 1, "id", "."},
+		{[]string{"-s"}, 0, 0, 1, 0, "id", "."},
+		{[]string{"-s", "-n"}, 0, 0, 1, 1, "inputs", "[inputs]"},
+		{nil, 0, 0, 0, 0, "pair", "[., input]"},
+		{nil, 0, 0, 0, 0, "inputs", "[inputs]"},
+		{[]string{"-n"}, 0, 0, 0, 1, "inputk", ""},
+		{[]string{"-R"}, 1, 0, 0, 0, "id", "."},
+		{[]string{"-R", "-s"}, 1, 0, 1, 0, "id", "."},
+		{[]string{"-Rs"}, 1, 0, 1, 0, "id", "."},
+		{[]string{"-R", "-n"}, 1, 0, 0, 1, "inputs", "[inputs]"},
+		{[]string{"-nR"}, 1, 0, 0, 1, "inputk", ""},
+		{[]string{"--stream"}, 0, 1, 0, 0, "id", "."},
+		{[]string{"--stream", "-n"}, 0, 1, 0, 1, "inputs", "[inputs]"},
+		{[]string{"--stream", "-s"}, 0, 1, 1, 0, "id", "."},
+		{[]string{"--stream"}, 0, 1, 0, 0, "pair", "[., input]"},
+	}
+	// sources
+	nfiles := r.Intn(4)
+	useStdinOperand := nfiles > 0 && r.Chance(1, 3)
+	var srcs []source
+	files := map[string]string{}
+	for _, raw := range []bool{false, true} {
+		srcs = srcs[:0]
+		stdinText := ""
+		if raw {
+			stdinText = genRaw(r)
+		} else {
+			stdinText = genJSONText(r, true)
+		}
+		for i := 0; i < nfiles; i++ {
+			name := filepath.Join(dir, fmt.Sprintf("r%d_%v_f%d.json", round, raw, i))
+			if r.Chance(1, 10) {
+				srcs = append(srcs, source{arg: name + ".missing", missing: true})
+				continue
+			}
+			var text string
+			if raw {
+				text = genRaw(r)
+			} else {
+				text = genJSONText(r, true)
+			}
+			if err := os.WriteFile(name, []byte(text), 0o644); err != nil {
+				panic(err)
+			}
+			files[filepath.Base(name)] = text
+			srcs = append(srcs, source{arg: name, text: text})
+		}
+		if useStdinOperand {
+			k := r.Intn(len(srcs) + 1)
+			srcs = append(srcs[:k], append([]source{{arg: "-", text: stdinText}}, srcs[k:]...)...)
+		}
+		var operands []string
+		var srcSexps []string
+		for _, sc := range srcs {
+			operands = append(operands, sc.arg)
+			if sc.missing {
+				srcSexps = append(srcSexps, "missing")
+			} else {
+				srcSexps = append(srcSexps, dataSexp(sc.text, raw))
+			}
+		}
+		total := 0
+		for _, sc := range srcs {
+			if !sc.missing {
+				vs, _ := decodeAll(sc.text)
+				total += len(vs)
+			}
+		}
+		for _, m := range modes {
+			if (m.r == 1) != raw {
+				continue
+			}
+			q, jq := m.query, m.jq
+			if q == "inputk" {
+				k := r.Intn(total + 3)
+				q = fmt.Sprintf("(inputk %d)", k)
+				parts := make([]string, k)
+				for i := range parts {
+					parts[i] = "input"
+				}
+				jq = strings.Join(parts, ", ")
+				if k == 0 {
+					jq = "empty"
+				}
+			}
+			args := append(append([]string{}, m.flags...), "-c", jq)
+			args = append(args, operands...)
+			res := runCLI(args, stdinText)
+			seq, nerr, ok := printedSeq(res)
+			ct := caseText(shortArgs(args, dir), stdinText, files)
+			if !ok {
+				c.Violation("%s :: stdout is not a sequence of JSON values", ct)
+				continue
+			}
+			if (nerr > 0) != (res.code == 5) || (nerr == 0) != (res.code == 0) {
+				c.Violation("%s :: exit status %d with %d error lines", ct, res.code, nerr)
+			}
+			c.Emit("(inputs (mode %d %d %d %d) %s %s (%s) %s)", m.r, m.t, m.s, m.n, q, dataSexp(stdinText, raw), strings.Join(srcSexps, " "), seq)
+			c.Count("inputs:" + strings.Join(m.flags, "") + ":" + m.query)
+		}
+		// in-language equivalences on the same implementation
+		eq := func(a, b []string, what string) {
+			ra := runCLI(append(append([]string{}, a...), operands...), stdinText)
+			rb := runCLI(append(append([]string{}, b...), operands...), stdinText)
+			if ra.stdout != rb.stdout || ra.code != rb.code {
+				c.Violation("%s :: %s: differs from %s", caseText(shortArgs(append(append([]string{}, a...), operands...), dir), stdinText, files), what, strings.Join(b, " "))
+			}
+			c.Count("equiv:" + what)
+		}
+		if !raw {
+			eq([]string{"-s", "-c", "."}, []string{"-n", "-c", "[inputs]"}, "-s .")
+			if plain := runCLI(append([]string{"-c", "."}, operands...), stdinText); plain.code == 0 {
+				// without an error value in the stream (an error ends `inputs`, the main loop goes on)
+				eq([]string{"-c", "."}, []string{"-n", "-c", "inputs"}, "-n inputs")
+			}
+			eq([]string{"--stream", "-s", "-c", "."}, []string{"--stream", "-n", "-c", "[inputs]"}, "--stream -s")
+			// -f file equals passing the file's text
+			queries := []string{".", "[., input]", "# comment\n.\n", "  [inputs]  ", "def f: .;\nf | f", ". as $x | $x", "input"}
+			qt := queries[r.Intn(len(queries))]
+			qf := filepath.Join(dir, fmt.Sprintf("q%d.jq", round))
+			os.WriteFile(qf, []byte(qt), 0o644)
+			pos := r.Intn(2)
+			var fa []string
+			if pos == 0 {
+				fa = []string{"-c", "-f", qf}
+			} else {
+				fa = []string{"-f", "-c", qf}
+			}
+			eq(fa, []string{"-c", qt}, "-f file")
+			if len(operands) > 0 {
+				// -f may also follow the query file: gojq -c FILE -f OPERANDS…
+				ra := runCLI(append([]string{"-c", qf, "--from-file"}, operands...), stdinText)
+				rb := runCLI(append([]string{"-c", qt}, operands...), stdinText)
+				if ra.stdout != rb.stdout || ra.code != rb.code {
+					c.Violation("%s :: --from-file after the file name differs from the text", caseText(shortArgs(append([]string{"-c", qf, "--from-file"}, operands...), dir), stdinText, files))
+				}
+			}
+		} else {
+			// -R yields the lines, -Rs the whole text (Go-side reading of the same bytes)
+			var texts []string
+			anyMissing := false
+			for _, sc := range srcs {
+				if sc.missing {
+					anyMissing = true
+				}
+				texts = append(texts, sc.text)
+			}
+			if len(srcs) == 0 {
+				texts = []string{stdinText}
+			}
+			if !anyMissing {
+				var lines []any
+				for _, t := range texts {
+					ls := strings.Split(t, "\n")
+					if ls[len(ls)-1] == "" {
+						ls = ls[:len(ls)-1]
+					}
+					for _, l := range ls {
+						lines = append(lines, l)
+					}
+				}
+				rr := runCLI(append([]string{"-R", "-c", "."}, operands...), stdinText)
+				got, ok := decodeAll(rr.stdout)
+				if !ok || rr.code != 0 || !reflect.DeepEqual(got, lines) && !(len(got) == 0 && len(lines) == 0) {
+					c.Violation("%s :: -R does not yield the lines", caseText(shortArgs(append([]string{"-R", "-c", "."}, operands...), dir), stdinText, files))
+				}
+				rs := runCLI(append([]string{"-Rs", "-c", "."}, operands...), stdinText)
+				got, ok = decodeAll(rs.stdout)
+				if !ok || rs.code != 0 || len(got) != 1 || got[0] != strings.Join(texts, "") {
+					c.Violation("%s :: -Rs does not yield the whole text", caseText(shortArgs(append([]string{"-Rs", "-c", "."}, operands...), dir), stdinText, files))
+				}
+				if len(texts) == 1 {
+					eq([]string{"-R", "-n", "-c", "[inputs]"}, []string{"-Rs", "-c", `split("\n") | if .[-1] == "" then .[:-1] else . end`}, "-R lines")
+				}
+				c.Count("equiv:raw")
+			}
+		}
+	}
+}
+
+func shortArgs(args []string, dir string) []string {
+	out := make([]string, len(args))
+	for i, a := range args {
+		out[i] = strings.ReplaceAll(a, dir+string(os.PathSeparator), "")
+	}
+	return out
+}
+
+// ---------------------------------------------------------------------------------------------
+// --arg family, --args / --jsonargs
+
+var jsonTexts = []string{"1", "null", `"s"`, `[1,{"a":2}]`, ` {"k":[]} `, "true", "1 2", "", "{", `"x" y`, "-0.5", "[]", `{"b":1,"a":2}`}
+var argNames = []string{"a", "b", "c", "a", "b", "x1", "named", "foo_bar"}
+var plainWords = []string{"w", "1", "x y", "", "null", `"q"`, "[1]", "-", "-1", "{", "é", "--", "--arg", "-n", "--args", "{\"a\":1}", "1 2"}
+
+func argsChecks(c *Ctx, dir string, round int) {
+	r := c.Rng
+	files := map[string]string{}
+	mkfile := func(kind string) string {
+		name := filepath.Join(dir, fmt.Sprintf("a%d_%s%d", round, kind, r.Intn(1000)))
+		if r.Chance(1, 8) {
+			return name + ".missing"
+		}
+		var text string
+		if kind == "raw" {
+			text = genRaw(r)
+		} else {
+			text = genJSONText(r, r.Chance(1, 4))
+		}
+		os.WriteFile(name, []byte(text), 0o644)
+		files[name] = text
+		return name
+	}
+	var words []string
+	queryPlaced, posActive, dashdash := false, false, false
+	emitNamed := func() {
+		name := argNames[r.Intn(len(argNames))]
+		switch r.Intn(4) {
+		case 0:
+			words = append(words, "--arg", name, plainWords[r.Intn(len(plainWords))])
+		case 1:
+			words = append(words, "--argjson", name, jsonTexts[r.Intn(len(jsonTexts)-3+r.Intn(4))])
+		case 2:
+			words = append(words, "--slurpfile", name, mkfile("slurp"))
+		default:
+			words = append(words, "--rawfile", name, mkfile("raw"))
+		}
+	}
+	jsonMode := false
+	n := 2 + r.Intn(9)
+	placeAt := r.Intn(n)
+	for i := 0; i < n; i++ {
+		if i == placeAt {
+			words = append(words, "$ARGS")
+			queryPlaced = true
+			continue
+		}
+		switch k := r.Intn(10); {
+		case dashdash && queryPlaced && posActive:
+			w := plainWords[r.Intn(len(plainWords))]
+			if jsonMode {
+				w = jsonTexts[r.Intn(len(jsonTexts)-2)]
+			}
+			words = append(words, w)
+		case k < 3 && !dashdash:
+			emitNamed()
+		case k < 5 && !dashdash:
+			if r.Chance(1, 2) {
+				words = append(words, "--args")
+				jsonMode = false
+			} else {
+				words = append(words, "--jsonargs")
+				jsonMode = true
+			}
+			posActive = true
+		case k < 6 && !dashdash:
+			words = append(words, []string{"-n", "-c", "-nc", "--compact-output", "-r"}[r.Intn(5)])
+		case k == 6 && queryPlaced && posActive && !dashdash:
+			words = append(words, "--")
+			dashdash = true
+		case queryPlaced && posActive:
+			var w string
+			if jsonMode {
+				w = jsonTexts[r.Intn(len(jsonTexts)-1)]
+			} else {
+				w = plainWords[r.Intn(len(plainWords)-6)]
+			}
+			words = append(words, w)
+		default:
+			if !dashdash {
+				emitNamed()
+			}
+		}
+	}
+	words = append([]string{"-n", "-c"}, words...)
+	res := runCLI(words, "")
+	// dictionary of everything the flags may refer to
+	var dict []string
+	seen := map[string]bool{}
+	addJSON := func(t string) {
+		if seen["j"+t] {
+			return
+		}
+		seen["j"+t] = true
+		dec := json.NewDecoder(strings.NewReader(t))
+		dec.UseNumber()
+		var v any
+		err := dec.Decode(&v)
+		switch {
+		case err == io.EOF:
+			dict = append(dict, fmt.Sprintf("(json %s null)", Hexs([]byte(t))))
+		case err != nil:
+			dict = append(dict, fmt.Sprintf("(json %s err)", Hexs([]byte(t))))
+		default:
+			dict = append(dict, fmt.Sprintf("(json %s %s)", Hexs([]byte(t)), SexpVal(v)))
+		}
+	}
+	for _, w := range words {
+		addJSON(w)
+		if strings.HasPrefix(w, dir) && !seen["f"+w] {
+			seen["f"+w] = true
+			text, ok := files[w]
+			if !ok {
+				dict = append(dict, fmt.Sprintf("(slurp %s err)", Hexs([]byte(w))), fmt.Sprintf("(raw %s err)", Hexs([]byte(w))))
+				continue
+			}
+			dict = append(dict, fmt.Sprintf("(raw %s %s)", Hexs([]byte(w)), SexpVal(text)))
+			if vals, ok := decodeAll(text); ok {
+				if vals == nil {
+					vals = []any{}
+				}
+				dict = append(dict, fmt.Sprintf("(slurp %s %s)", Hexs([]byte(w)), SexpVal(vals)))
+			} else {
+				dict = append(dict, fmt.Sprintf("(slurp %s err)", Hexs([]byte(w))))
+			}
+		}
+	}
+	impl := "err"
+	vals, ok := decodeAll(res.stdout)
+	if res.code == 0 && ok && len(vals) == 1 {
+		impl = "(out " + SexpVal(vals[0]) + ")"
+	} else if res.code == 0 {
+		impl = "(weird " + Hexs([]byte(res.stdout)) + ")"
+	}
+	hw := make([]string, len(words))
+	for i, w := range words {
+		hw[i] = Hexs([]byte(w))
+	}
+	c.Emit("(args (%s) (%s) %s)", strings.Join(hw, " "), strings.Join(dict, " "), impl)
+	c.Count("args")
+	// in-language: $name is $ARGS.named.name, and $ARGS is stable under -f
+	if res.code == 0 && ok && len(vals) == 1 {
+		if m, _ := vals[0].(map[string]any); m != nil {
+			named, _ := m["named"].(map[string]any)
+			var vs, ns []string
+			for k := range named {
+				vs = append(vs, "$"+k)
+				ns = append(ns, "$ARGS.named."+k)
+			}
+			sort.Strings(vs)
+			sort.Strings(ns)
+			q := "[" + strings.Join(vs, ",") + "] == [" + strings.Join(ns, ",") + "]"
+			w2 := make([]string, len(words))
+			copy(w2, words)
+			for i, w := range w2 {
+				if w == "$ARGS" {
+					w2[i] = q
+					break
+				}
+			}
+			r2 := runCLI(w2, "")
+			if strings.TrimSpace(r2.stdout) != "true" {
+				c.Violation("%s :: $name differs from $ARGS.named.name", caseText(shortArgs(w2, dir), "", nil))
+			}
+			// literal: the same object written in the query language
+			lit, _ := json.Marshal(vals[0])
+			r3 := runCLI([]string{"-n", "-c", string(lit)}, "")
+			if r3.stdout != res.stdout {
+				c.Violation("%s :: $ARGS differs from its own literal", caseText(shortArgs(words, dir), "", nil))
+			}
+			c.Count("equiv:args")
+		}
+	}
+}
+
+// ---------------------------------------------------------------------------------------------
 
 func runC16(c *Ctx) {
 	dir, err := os.MkdirTemp("", "verif-c16-")
@@ -561,7 +1017,6 @@ func runC16(c *Ctx) {
 		panic(err)
 	}
 	defer os.RemoveAll(dir)
-	_ = filepath.Join
 	_ = hex.EncodeToString
 	_ = bytes.NewReader
 	n := c.N
@@ -570,6 +1025,15 @@ func runC16(c *Ctx) {
 		ndocs := 1 + c.Rng.Intn(3)
 		text, nums := genStream(c.Rng, ndocs, 1+c.Rng.Intn(3))
 		streamChecks(c, text, nums, len(text) <= 160 || c.Tier != "quick")
+		inputsChecks(c, dir, i)
+		argsChecks(c, dir, i)
+		argsChecks(c, dir, i)
+		if i%50 == 49 { // keep the temp dir small
+			es, _ := os.ReadDir(dir)
+			for _, e := range es {
+				os.Remove(filepath.Join(dir, e.Name()))
+			}
+		}
 	}
 	// fixed shapes named in the property text
 	for _, text := range []string{"1", "null", `"a"`, "[]", "{}", "[[]]", "[{}]", `{"a":[]}`, `{"a":{}}`, "[[],[]]", "[[[]]]",
